@@ -1,9 +1,112 @@
 import QecVerif.Model.Wire
+import QecVerif.Model.MpsShape
 namespace Qec.Drv
-open Qec Qec.Wire
+open Qec Qec.Wire Qec.Mps
 
+/-
+  driver ops of property C12 (first protocol token `c12`)
+    c12 startstop <mps>                                   → ok a,b | ValueError:gap
+    c12 zeros <mps> | c12 rev <mps>                       → ok <mps>
+    c12 bond <mps>                                        → ok <n>
+    c12 lcf|rcf <chi|N> <tol|N> <qr> <norm> <mask|N> <mps> <orc>
+                                                          → ok z=<0|1> t=<mps> tr=<trace> left=<n> | <error>
+    c12 trunc <chi|N> <tol|N> <mask|N> <mps> <orc>        → ok same=<0|1> z=<0|1> t=<mps> tr1=… tr2=… left=<n> | <error>
+  <mps>  : sites joined by ';' , a site is 'N' or 'n,e,s,w' ; '_' = empty list
+  <orc>  : entries joined by ';' : Q<rat> | S<rat>,<rat>,… | L<rat> ; '_' = empty
+  <trace>: steps joined by ';' : row:Q|S:rows:cols:kept|Z ; '_' = empty
+-/
+
+namespace C12
+
+def parseSite? (s : String) : Option Site :=
+  if s == "N" then some none else
+  match (s.splitOn ",").mapM (·.toNat?) with
+  | some [n, e, s', w] => some (some ⟨n, e, s', w⟩)
+  | _ => none
+
+def parseMps? (s : String) : Option Mps :=
+  if s == "_" then some [] else (s.splitOn ";").mapM parseSite?
+
+def showSite : Site → String
+  | none => "N"
+  | some t => s!"{t.n},{t.e},{t.s},{t.w}"
+
+def showMps (m : Mps) : String :=
+  if m.isEmpty then "_" else ";".intercalate (m.map showSite)
+
+def parseOrc1? (s : String) : Option Orc :=
+  match s.toList with
+  | 'Q' :: r => (parseRat? (String.ofList r)).map .qr
+  | 'L' :: r => (parseRat? (String.ofList r)).map .last
+  | 'S' :: r =>
+      let body := String.ofList r
+      if body == "" then some (.svd []) else ((body.splitOn ",").mapM parseRat?).map .svd
+  | _ => none
+
+def parseOrc? (s : String) : Option (List Orc) :=
+  if s == "_" then some [] else (s.splitOn ";").mapM parseOrc1?
+
+def showStep (s : Step) : String :=
+  let k := match s.kept with | some k => toString k | none => "Z"
+  s!"{s.row}:{if s.isQr then "Q" else "S"}:{s.rows}:{s.cols}:{k}"
+
+def showTrace (t : List Step) : String :=
+  if t.isEmpty then "_" else ";".intercalate (t.map showStep)
+
+def showErr : Err → String
+  | .assertion => "AssertionError"
+  | .gap => "ValueError:gap"
+  | .bond => "ValueError:bond"
+  | .oracle => "bad-oracle"
+
+def showRes : Except Err Res → String
+  | .error e => showErr e
+  | .ok r => s!"ok z={showBool r.zero} t={showMps r.tensors} tr={showTrace r.trace} left={r.rest.length}"
+
+def showTrunc : Except Err TruncRes → String
+  | .error e => showErr e
+  | .ok r => s!"ok same={showBool r.same} z={showBool r.zero} t={showMps r.tensors} tr1={showTrace r.trace1} tr2={showTrace r.trace2} left={r.rest.length}"
+
+def parseMask? (s : String) : Option (Option (List Bool)) := parseOptBits? s
+
+end C12
+
+open C12 in
 /-- driver ops of property C12 (first protocol token `c12`) -/
 def c12 : List String → Option String
+  | ["startstop", m] => do
+      let m ← parseMps? m
+      pure (match startStop m with
+            | .ok (a, b) => s!"ok {a},{b}"
+            | .error e => showErr e)
+  | ["zeros", m] => do
+      let m ← parseMps? m
+      pure ("ok " ++ showMps (zerosLike m))
+  | ["rev", m] => do
+      let m ← parseMps? m
+      pure ("ok " ++ showMps (rev m))
+  | ["bond", m] => do
+      let m ← parseMps? m
+      pure s!"ok {bondDim m}"
+  | [op, chi, tol, qr, nrm, mask, m, orc] => do
+      let chi ← parseOptNat? chi
+      let tol ← parseOptRat? tol
+      let qr ← parseBool? qr
+      let nrm ← parseBool? nrm
+      let mask ← parseMask? mask
+      let m ← parseMps? m
+      let orc ← parseOrc? orc
+      let p : Params := { chi := chi, tol := tol, qr := qr, normalise := nrm, mask := mask }
+      if op == "lcf" then pure (showRes (lcf p m orc))
+      else if op == "rcf" then pure (showRes (rcf p m orc))
+      else none
+  | ["trunc", chi, tol, mask, m, orc] => do
+      let chi ← parseOptNat? chi
+      let tol ← parseOptRat? tol
+      let mask ← parseMask? mask
+      let m ← parseMps? m
+      let orc ← parseOrc? orc
+      pure (showTrunc (truncate chi tol mask m orc))
   | _ => none
 
 end Qec.Drv
